@@ -112,7 +112,7 @@ theorem parse_ptrOf (v : ToastValue) (h : v.WF) :
 
 /-! ### decompression of the stored form -/
 
-theorem decompressStored_pglz (zlib : Bytes → Option Bytes) (v : ToastValue) (ts : List Pglz.Tok)
+theorem decompressStored_pglz (zlib : Bytes → Nat → Option Bytes) (v : ToastValue) (ts : List Pglz.Tok)
     (hc : v.content = .pglz ts) (hw : Pglz.PglzWF ts) (h4 : 4 ≤ (Pglz.renderPglz ts).length)
     (hlt : v.content.stored.length < v.content.original.length) :
     decompressStored zlib (mptr v) v.content.stored = .ok v.content.original := by
@@ -130,7 +130,7 @@ theorem decompressStored_pglz (zlib : Bytes → Option Bytes) (v : ToastValue) (
     pure_eq_ok, ok_bind, hd]
   rw [if_pos hpos]
 
-theorem decompressStored_lz4 (zlib : Bytes → Option Bytes) (v : ToastValue) (b : Lz4.Block)
+theorem decompressStored_lz4 (zlib : Bytes → Nat → Option Bytes) (v : ToastValue) (b : Lz4.Block)
     (hc : v.content = .lz4 b) (hw : Lz4.Lz4WF b) :
     decompressStored zlib (mptr v) v.content.stored = .ok v.content.original := by
   have hd := Lz4.decompressLZ4_render b hw
@@ -146,7 +146,7 @@ theorem decompressStored_lz4 (zlib : Bytes → Option Bytes) (v : ToastValue) (b
 
 /-! ### ReassembleTOAST -/
 
-theorem reassemble_value (zlib : Bytes → Option Bytes) (cs : List Chunk) (v : ToastValue) (h : v.WF)
+theorem reassemble_value (zlib : Bytes → Nat → Option Bytes) (cs : List Chunk) (v : ToastValue) (h : v.WF)
     (hp : (cs.filter (·.id == v.id)).Perm ((chunkRows v).map toChunk)) :
     reassembleTOAST zlib cs v.id (some (mptr v)) = .ok (some v.content.original) := by
   obtain ⟨h1, h2, hcw, h4, h5⟩ := h
